@@ -133,7 +133,9 @@ def gen_desc_lines(rng, create='monolithicSparse'):
               'parentCID=ffffffff']
     if rng.random() < 0.3:
         lines.append('encoding="UTF-8"')
-    lines.append('%s="%s"' % (key, create))
+    # (editors leave blanks at line ends)
+    lines.append('%s="%s"%s' % (key, create, rng.choice(
+        ('', '', '', '', '', ' ', '\t', '  '))))
     if rng.random() < 0.7:
         lines += ['', '# Extent description']
     for _ in range(rng.randint(1, 3)):
@@ -160,6 +162,8 @@ def gen_vmdk(rng, footer=None):
         footer = rng.random() < 0.3
     if footer:
         p['footer'] = True
+    if rng.random() < 0.12:
+        p['desc_nl'] = '\r\n'       # descriptors written on Windows
     return p
 
 
